@@ -267,6 +267,12 @@ Start(o) == [pc |-> "build", stack |-> <<>>, o |-> o, i |-> 1, actual |-> <<>>, 
              imgs |-> <<>>, out |-> [r \in Regions(o) |-> White0], path |-> {}, status |-> 200]
 Begin(stack, o) == [Start(o) EXCEPT !.stack = stack, !.pc = "select"]
 
+\* the layer s.stack[s.i] was collected before and not forgotten since (an opaque layer empties the collection and
+\* is collected itself)
+LastReset(s) == LET R == {k \in 1 .. (s.i - 1) : InRange(LayerRng(s.stack[k]), s.o) /\ LayerOpaque(s.stack[k], s.o)}
+                IN IF R = {} THEN 1 ELSE CHOOSE k \in R : \A j \in R : j <= k
+SeenBefore(s) == \E k \in LastReset(s) .. (s.i - 1) : s.stack[k].name = s.stack[s.i].name
+
 \* service/wms.py:107-117
 SelStep(s) ==
   LET L == s.stack[s.i]
@@ -278,7 +284,11 @@ SelStep(s) ==
                       !.path = @ \cup (IF s.actual # <<>> THEN {"prune"} ELSE {})
                                  \cup (IF s.actual # <<>> /\ \A k \in 1 .. Len(L.srcs) : SrcOpaque(L.srcs[k], s.o) => L.srcs[k].op = 0
                                        THEN {"prune_invisible"} ELSE {})]
-       ELSE [t EXCEPT !.actual = @ \o L.srcs]
+       \* a layer that is named a second time: the collected layers are a dictionary keyed by the layer name - the
+       \* entry keeps its (first) position (dup_first); the repaired code draws the layer again where it is named
+       ELSE IF "dup_first" \in Defects /\ SeenBefore(s)
+         THEN [t EXCEPT !.path = @ \cup {"dup_first"}]
+         ELSE [t EXCEPT !.actual = @ \o L.srcs]
 
 \* an exception that reaches wsgiapp.py: 500 internal error, no picture
 Crash(s, note) == [s EXCEPT !.pc = "done", !.status = 500, !.path = @ \cup {note}]
@@ -335,7 +345,14 @@ Impl(stack, o) == Run(Begin(stack, o))
 (***************************************************************************)
 Names == DOMAIN Cat
 StackNames(s) == {s.stack[k].name : k \in 1 .. Len(s.stack)}
-AddLayer(n) == /\ st.pc = "build" /\ n \notin StackNames(st)
+\* a layer may be named twice in a request (LAYERS=a,b,a: a is drawn below and above b); stacks with one repeated
+\* name are enumerated over the reduced catalogue
+HasDup(s) == Cardinality(StackNames(s)) < Len(s.stack)
+AddLayer(n) == /\ st.pc = "build"
+               /\ \/ n \notin StackNames(st) /\ (HasDup(st) => n \in Reduced)
+                  \/ /\ n \in StackNames(st) /\ ~HasDup(st) /\ StackNames(st) \subseteq Reduced
+                     \* (not a layer whose upstream fails: named twice in one combined request it fails once)
+                     /\ \A k \in 1 .. Len(Cat[n].srcs) : Cat[n].srcs[k].kind # "err"
                /\ \/ Len(st.stack) < ShallowLen
                   \/ Len(st.stack) < MaxStack /\ StackNames(st) \cup {n} \subseteq Reduced
                /\ st' = [st EXCEPT !.stack = Append(@, Cat[n])]
